@@ -228,7 +228,17 @@ def mp1(ctx, R):
     from .flow import resolve_call
     prog = ctx.prog
     gens = {"reader.TdmsReader." + m for m in READER_STREAMS}
-    convs = {"tdms._convert_data_chunk", "tdms._convert_channel_data_chunk"}
+    # the conversion functions, found by what they do: module-level functions with a flag parameter that (directly or through one
+    # another) call .as_datetime64() on chunk data
+    direct_conv = {f.qual for f in prog.functions.values() if f.cls is None and any("timestamp" in p for p in f.params) and any(
+        isinstance(x, ast.Call) and isinstance(x.func, ast.Attribute) and x.func.attr == "as_datetime64" for x in walk_body(f.node))}
+    convs = set(direct_conv)
+    for f in prog.functions.values():
+        if f.cls is None and any("timestamp" in p for p in f.params) and f.qual not in convs and any(
+                isinstance(x, ast.Call) and any(t.qual in direct_conv for t, _k in resolve_call(prog, f, f.cls, x)) for x in walk_body(f.node)):
+            convs.add(f.qual)
+    if not convs:
+        raise AnchorMissing("functions converting chunk timestamps with as_datetime64() under a flag parameter")
     factory = prog.func("channel_data.get_data_receiver")
     FLAG = ("self", "_raw_timestamps")
     consumers = []
@@ -257,6 +267,22 @@ def mp1(ctx, R):
         cfg = ctx.cfg(fi)
         conv_calls = [x for x in walk_body(fi.node) if isinstance(x, ast.Call) and call_reaches(ctx, fi, x, convs)]
         recv_calls = calls_to(prog, fi, factory.qual)
+        recv_fi = fi
+        if not recv_calls and fi.cls is not None:
+            # receivers created in a helper method of the same class that this function calls
+            for h in fi.cls.methods.values():
+                if h is not fi and calls_to(prog, h, factory.qual) and calls_to(prog, fi, h.qual, fi.cls):
+                    recv_calls, recv_fi = calls_to(prog, h, factory.qual), h
+        if not recv_calls and fi.cls is not None:
+            # receivers created by another method of the class and kept in a field that this function feeds the chunks into
+            for h in fi.cls.methods.values():
+                for n_ in walk_body(h.node):
+                    if isinstance(n_, ast.Assign) and isinstance(n_.value, ast.Call) and n_.value in calls_to(prog, h, factory.qual):
+                        for t_ in n_.targets:
+                            base_ = t_.value if isinstance(t_, ast.Subscript) else t_
+                            d_ = dotted(base_)
+                            if d_ and d_.startswith("self.") and any(dotted(x) == d_ for x in ast.walk(fi.node)):
+                                recv_calls, recv_fi = [n_.value], h
         if conv_calls and recv_calls:
             R.violation(key, fi.where(c), "chunks are converted AND fed to a converting receiver: the representation switch is applied twice")
         elif conv_calls:
@@ -283,7 +309,7 @@ def mp1(ctx, R):
             else:
                 R.ok(key, fi.where(c), "every chunk passes the conversion controlled by self._raw_timestamps before it is handed out")
         elif recv_calls:
-            flags = [flag_of(fi, x, factory) for x in recv_calls]
+            flags = [flag_of(recv_fi, x, factory) for x in recv_calls]
             R.check(all(f == FLAG for f in flags), key, fi.where(recv_calls[0]), "chunks go into receivers created with self._raw_timestamps",
                     "receiver is created with `%s` instead of self._raw_timestamps" % (show([f for f in flags if f != FLAG][0]) if any(f != FLAG for f in flags) else ""))
         else:
@@ -291,7 +317,9 @@ def mp1(ctx, R):
                         "_convert_*_chunk nor a receiver created with raw_timestamps)")
     # the converter itself switches on the flag and on the array type: the store of the converted data runs iff raw timestamps were
     # not requested and the data is a TimestampArray
-    cv = prog.func("tdms._convert_channel_data_chunk")
+    if not direct_conv:
+        raise AnchorMissing("function converting a chunk's timestamps with as_datetime64() under a flag parameter")
+    cv = prog.functions[sorted(direct_conv)[0]]
     flagp = ("param", [p for p in cv.params if "timestamp" in p][0]) if any("timestamp" in p for p in cv.params) else None
     sy = Sym(prog, cv, None)
     ok = False
@@ -313,8 +341,8 @@ def mp1(ctx, R):
                 return False if any(v is False for v in vals) else (True if all(v is True for v in vals) else None)
             ok = runs(False, True) is True and runs(True, True) is False and runs(False, False) is False
     if not found:
-        raise AnchorMissing("tdms._convert_channel_data_chunk: conversion with as_datetime64()")
-    R.check(ok and flagp is not None, "tdms._convert_channel_data_chunk", cv.where(),
+        raise AnchorMissing("%s: conversion with as_datetime64()" % cv.qual)
+    R.check(ok and flagp is not None, cv.qual, cv.where(),
             "converts TimestampArray data iff raw timestamps were not requested", "converter no longer switches on raw_timestamps / TimestampArray")
 
 
